@@ -8,6 +8,7 @@ def check(ctx, rep):
     tok.tok_1_2(ctx, rep, pf.acc)
     tok.tok_3(ctx, rep, pf.acc)
     tok.tok_8(ctx, rep)
+    tok.tok_10(ctx, rep)
     tok.tok_5(ctx, rep)
     par.par_1(ctx, rep)
     par.pop_shape(ctx, rep)
